@@ -298,6 +298,26 @@ func (p *provider) findDescriptor(serviceType reflect.Type, key any) *Descriptor
 	return p.services[typeKey]
 }
 
+// holds reports whether the descriptor belongs to this provider's snapshot of the
+// registrations: descriptors of one registration know each other, but some of
+// them may have been removed from the collection before Build.
+func (p *provider) holds(d *Descriptor) bool {
+	if d == nil {
+		return false
+	}
+	if p.services[TypeKey{Type: d.Type, Key: d.Key}] == d {
+		return true
+	}
+	if d.Group != "" {
+		for _, member := range p.groups[GroupKey{Type: d.Type, Group: d.Group}] {
+			if member == d {
+				return true
+			}
+		}
+	}
+	return false
+}
+
 // findGroupDescriptors finds all descriptors for a specific type within a group.
 // Returns an empty slice if the type is nil, group is empty, or no services are found.
 func (p *provider) findGroupDescriptors(serviceType reflect.Type, group string) []*Descriptor {
